@@ -21,10 +21,14 @@ THEOREMS = [
     "PV.C17.parse_bytes_vertical_tab_fails",
     "PV.C17.repr_special",
     "PV.C17.repr_shape",
+    "PV.C17.isInteger_cases",
     "PV.C17.repr_roundtrip_partial",
     "PV.C17.repr_roundtrip_fails",
     "PV.C17.hex_eq_py_partial",
     "PV.C17.hex_eq_py_fails",
+    "PV.C17.hex_roundtrip_partial",
+    "PV.C17.hex_roundtrip_zero_inf",
+    "PV.C17.hex_roundtrip",
     "PV.C17.exponent_two_digits",
     "PV.C17.exponent_eq_py",
     "PV.C17.exponent_reads_back",
@@ -43,6 +47,10 @@ THEOREMS = [
     "PV.Dec.ilog10_spec",
     "PV.Dec.expRound_bounds",
     "PV.Dec.expDigits_length",
+    "PV.Dec.ilog2_scale2",
+    "PV.Dec.ofRat_pow2",
+    "PV.C17.hexfConvert_exact",
+    "PV.C17.hexFacts_all",
 ]
 TRUSTED = [
     "Lean 4.33.0 kernel; axioms limited to propext, Classical.choice, Quot.sound",
@@ -64,8 +72,9 @@ PARTIAL = [
     "that the parser (trim, underscore stripping, grammar scanner, exponent reader) inverts each layout.",
     "'is a shortest such rendering' is inherited from Rust's {:e}/Display (Grisu/Dragon) = PV.Dec.shortest; minimality "
     "of PV.Dec.shortest is not proved in Lean, it is compared with CPython's repr digit count on every sampled double.",
-    "hex_roundtrip (from_hex(to_hex x) = x) is not proved in Lean: it is checked by the fhexrt stream on every sampled "
-    "double; hex_eq_py_partial proves to_hex = float.hex() textually for all non-subnormal doubles.",
+    "hex_roundtrip is proved for every non-NaN double (HexFacts is a theorem, hexFacts_all), relative to the model of "
+    "hexf-parse's scanner and convert_hexf64 (modelled line by line incl. their u64/isize Inexact exits; tied to the "
+    "crate by the from-hex streams). to_hex = float.hex() holds off the subnormals only (hex_eq_py_fails).",
     "Acceptance-set equality of the parser with Python's float() grammar (Spec.pyFloatRe) is not proved in Lean; it is "
     "checked exhaustively for every string of length <= 5 (quick) / 6 (thorough) over 12 symbols plus structured "
     "random and malformed texts, against CPython itself; strip_underlines_spec proves the underscore rule for all texts.",
@@ -585,7 +594,7 @@ def streams(ctx):
     ints = _no_known(_dedup(integer_neighbours(rng)))
     out.append(Stream("integer-neighbours", _bits_reqs(with_negatives(ints, 4)), kind="directed",
                       note="0, +-1, +-2 ulp around integers: 2^k(+-1), 10^k(+-1) up to 10^16, 0..39, random < 2^53"))
-    rnd = _no_known(_dedup(random_bits(rng, 3000 if q else 200000) + subnormals(rng, 300 if q else 5000)))
+    rnd = _no_known(_dedup(random_bits(rng, 3000 if q else 400000) + subnormals(rng, 300 if q else 5000)))
     out.append(Stream("random-doubles", _bits_reqs(rnd), kind="random", note="uniform bit patterns and subnormals"))
 
     # ---- printf-style renderers
@@ -623,7 +632,7 @@ def streams(ctx):
     trng = ctx.rng("texts")
     n = 4000 if q else 150000
     valid = [_num_text(trng) for _ in range(n)]
-    hard = _halfway_texts(trng, 300 if q else 6000)
+    hard = _halfway_texts(trng, 300 if q else 20000)
     long_ = []
     for _ in range(60 if q else 1500):
         nd = trng.choice([17, 18, 19, 20, 21, 40, 100, 400, 770, 800])
@@ -639,6 +648,10 @@ def streams(ctx):
                   "179769313486231580793728971405303415079934132710037826936173778980444968292764750946649017977587207096330286416692887910946555547851940402630657488671505820681908902000708383676273854845817711531764475730270069855571366959622842914819860834936475292719074168444365510704342711559699508093042880177904174497792",
                   "9007199254740993", "9007199254740992.5", "9007199254740993.0000000000000000000000001", "1e23", "8.5e22",
                   " ", "", "+ 1", "1 e5", "--1", "1..", "1ee5", "1e5.", "\xa01", "1 ", "　1"]
+    # every Unicode White_Space character (and look-alikes that are not) around a numeral: str::trim's table
+    for cp in list(range(0x00, 0x21)) + [0x7F, 0x85, 0xA0, 0x1680, 0x180E, 0x2028, 0x2029, 0x202F, 0x205F, 0x2060,
+                                          0x3000, 0xFEFF] + list(range(0x1FFF, 0x200D)):
+        corpus_txt += [chr(cp) + "1.5", "1.5" + chr(cp), chr(cp) + "nan" + chr(cp)]
     out.append(Stream("parse-str-structured", ["atof " + hexs(t) for t in corpus_txt + valid + hard + long_] +
                       ["atofb " + hexs(t) for t in valid[::4] if "\x0b" not in t],
                       kind="random", note="grammar-generated numerals (underscores, exponents, whitespace, special names), "
@@ -703,6 +716,13 @@ def streams(ctx):
                                           "it must fail exactly at +-0.9999999999999999 (the listed finding)"}
         if sorted(failing) != sorted(NEAR_ONE):
             ctx.notes.append(f"DEC FACTS: hypothesis of repr_roundtrip_partial fails on unexpected doubles {failing[:5]}")
+        nz = [b for b in fin if b & (SIGN - 1)]
+        got = core.run_lines([core.driver_path(DRIVER)], [f"hexfacts {b}" for b in nz], jobs=4 if q else 16)
+        hfail = [b for b, g in zip(nz, got) if g != "ok"]
+        ctx.extra["hex_facts"] = {"doubles": len(nz), "failing": len(hfail), "failing_bits": hfail[:10],
+                                  "note": "PV.C17.HexFacts (hypothesis of hex_roundtrip_partial) decided by drv_c17"}
+        if hfail:
+            ctx.notes.append(f"HEX FACTS: hypothesis of hex_roundtrip_partial fails on {hfail[:5]}")
     except Exception as e:
         ctx.notes.append(f"dec-facts evaluation could not run: {e!r}")
     return out
@@ -728,10 +748,14 @@ def search(ctx, disagreements, bins):
                         reqs += _fmt_reqs([x])
         elif op in ("atof", "atofb", "fromhex"):
             t = unhex(ws[1])
-            cands = {t, t.strip(), t.replace(b"_", b""), t.lower(), t.upper(), b" " + t, t + b" ", b"-" + t, t + b"0", t[:-1], t[1:]}
+            cands = {t, t.strip(), t.replace(b"_", b""), t.lower(), t.upper(), b"-" + t, t + b"0", t[:-1], t[1:]}
+            if op != "fromhex":
+                cands |= {b" " + t, t + b" "}
             for c in cands:
                 if b"\x0b" in c:
                     continue
+                if op == "fromhex" and c != c.strip():
+                    continue        # from_hex's callers trim; surrounding whitespace is outside the property
                 reqs.append(f"{op} " + hexs(c))
                 if op != "fromhex":
                     reqs.append("atof " + hexs(c) if op == "atofb" else "atofb " + hexs(c))
